@@ -395,3 +395,91 @@ class VecEval:
         finally:
             self.allow_return = False
         return None
+
+
+# ------------------------------------------------------------------------------------------------
+def _assigned_in(F, node):
+    """decl keys of the locals assigned (or ++/--) anywhere under `node`"""
+    out = set()
+    for x in F.walk(node):
+        k = x.get("k")
+        if k in ("BinaryOperator", "CompoundAssignOperator", "CXXOperatorCallExpr") and x.get("op") in norm.ASSIGN_OPS:
+            kids = [y for y in x["c"] if y is not None]
+            t = sc(kids[-2]) if len(kids) >= 2 else None
+            while t is not None and astq.subscript(t):
+                t = sc(astq.subscript(t)[0])
+            if t is not None and t.get("k") == "DeclRefExpr":
+                out.add(t["r"])
+        if k == "UnaryOperator" and x.get("op") in ("++", "--"):
+            t = sc(x["c"][0])
+            if t.get("k") == "DeclRefExpr":
+                out.add(t["r"])
+    return out
+
+
+def env_before(P, F, stmt, seed=None, fresh=None):
+    """A VecEval whose environment holds the values that reach `stmt` along the straight-line code before it: for every enclosing
+    block, outermost first, the simple statements (declarations, assignments) that precede the path to `stmt` are folded in order;
+    a compound statement on the way (if / loop / switch) that is not entered invalidates what it assigns; entering a loop
+    invalidates what its body assigns (loop-carried values).  An invalidated or unevaluable local becomes a fresh symbol
+    (`fresh(name, key, is_point)`), so the result is sound for identities that must hold whatever those values are."""
+    seed = dict(seed or {})
+    ve = VecEval(P, F, env=seed)
+
+    def mk(key):
+        d = P.d(key)
+        nm = d.get("n", "v")
+        if fresh is not None:
+            v = fresh(nm, key, ve.is_point_type(d.get("t")))
+            if v is not None:
+                return v
+        if ve.is_point_type(d.get("t")):
+            dim = int(d["t"].split("Point<")[1][0])
+            return tuple(sp.Symbol("%s_%d" % (nm, q), real=True) for q in range(dim))
+        return sp.Symbol(nm, real=True)
+
+    def kill(keys):
+        for k_ in keys:
+            if k_ in seed:
+                continue
+            ve.env[k_] = mk(k_)
+    path = [a for a in F.ancestors(stmt)][::-1] + [stmt]      # outermost first
+    for depth_, a in enumerate(path[:-1]):
+        nxt = path[depth_ + 1]
+        k = a.get("k")
+        if k in ("ForStmt", "WhileStmt", "DoStmt", "CXXForRangeStmt"):
+            kill(_assigned_in(F, a))
+            if k == "ForStmt" and a["c"][0] is not None and a["c"][0].get("k") == "DeclStmt":
+                for v in a["c"][0]["c"]:
+                    if v.get("k") == "VarDecl":
+                        ve.env[v["r"]] = seed.get(v["r"], sp.Symbol(v.get("n", "i"), integer=True, nonnegative=True))
+        if k != "CompoundStmt":
+            continue
+        for s in a["c"]:
+            if s is nxt:
+                break
+            if s is None:
+                continue
+            sk = s.get("k")
+            simple = sk == "DeclStmt" or (sk in ("BinaryOperator", "CompoundAssignOperator", "CXXOperatorCallExpr") and s.get("op") in norm.ASSIGN_OPS) \
+                or sk == "ExprWithCleanups"
+            if simple:
+                try:
+                    ve.stmt(s)
+                    # a seeded name keeps its seed
+                    for k_ in seed:
+                        ve.env[k_] = seed[k_]
+                    if sk == "DeclStmt":
+                        for v in s["c"]:
+                            if v.get("k") == "VarDecl" and ve.is_point_type(v.get("t")) and not isinstance(ve.env.get(v["r"]), tuple):
+                                ve.env[v["r"]] = mk(v["r"])
+                except AnalysisBroken:
+                    if sk == "DeclStmt":
+                        for v in s["c"]:
+                            if v.get("k") == "VarDecl" and v["r"] not in seed:
+                                ve.env[v["r"]] = mk(v["r"])
+                    else:
+                        kill(_assigned_in(F, s))
+            else:
+                kill(_assigned_in(F, s))
+    return ve
